@@ -82,6 +82,35 @@ def run(ctx, rep):
         fx = ctx.fnx(callees.get(kind, ''), file='topsort.rs')
         ok = any(c.get('f') == 'get_dependencies_from_type' and ('type' in vt.show(c['args'][0])) for c in fx['calls'])
         rep.check(ok, 'G2', f'{kind.lower()}:type', 'target type collected', f"{fx['name']} does not pass the {kind.lower()}'s type to get_dependencies_from_type", {'file': fx['file'], 'line': fx['line']})
+    # G4: the item table is keyed by the spelling references carry.  reconcile_aliases rewrites every reference to a
+    # serde(rename)d type to the renamed name (C09 N3), so a table keyed by id.original alone never finds those items:
+    # their dependants get no edge and are written first.
+    ts = ctx.fnx('topsort', file='topsort.rs')
+    tl = [l for l in ts['lets'] if l.get('names') == ['types'] and isinstance(l.get('v'), dict)]
+    if not tl:
+        raise core.Incomplete('topsort: the `types` table was not found')
+    facets = set()
+    for x in vt.walk(tl[0]['v']):
+        if x.get('k') == 'field' and x.get('name') in ('original', 'renamed') and isinstance(vt.unvar(x.get('base')), dict) and vt.unvar(x['base']).get('name') == 'id':
+            facets.add(x['name'])
+        if x.get('k') == 'atom' and len(x.get('path', [])) >= 2 and x['path'][-2] == 'id' and x['path'][-1] in ('original', 'renamed'):
+            facets.add(x['path'][-1])
+    rep.check('renamed' in facets, 'G4', 'types-table:keyed-by-reference-spelling', f'keys: {sorted(facets)}', f"topsort keys its item table by id.{'/'.join(sorted(facets)) or '?'} only, while references to a serde(rename)d type arrive under the renamed name (reconcile): `struct A {{ f: Foo }}` with `#[serde(rename = \"Zed\")] struct Foo` yields no edge A → Foo and A is written before Zed", {'file': ts['file'], 'line': tl[0].get('line', ts['line'])})
+    # G5: no collector lists the item itself among its dependencies (a self-edge is read as a cycle by toposort_impl,
+    # which then abandons the remaining dependencies of the item)
+    for kind, cname in sorted(callees.items()):
+        fc = ctx.fnx(cname, file='topsort.rs')
+        item_p = fc['params'][0]['name']
+        res_p = next((q['name'] for q in fc['params'] if 'Vec<String>' in str(q.get('ty') or '')), 'res')
+        selfpush = []
+        for c in fc['calls']:
+            if c.get('f') in ('push', 'extend', 'insert') and vt.show(vt.strip(c.get('recv'))) == res_p and c.get('args'):
+                a = vt.strip(c['args'][-1])
+                roots = {y.get('root') for y in vt.walk(a) if y.get('k') == 'atom'}
+                txt = vt.show(a)
+                if item_p in roots and re.search(r'\bid\.(original|renamed)\b', txt) and not any(y.get('k') == 'elem' for y in vt.walk(a)):
+                    selfpush.append(c)
+        rep.check(not selfpush, 'G5', f'{cname}:no-self-dependency', 'the item is not its own dependency', f"{cname} pushes the item's own name (`{vt.show(selfpush[0]['args'][-1])[:60] if selfpush else ''}`) into its dependency list: toposort_impl reads the self-edge as a cycle and skips the item's remaining dependencies, which are then written after it", {'file': fc['file'], 'line': selfpush[0].get('line') if selfpush else fc['line']})
     # G3 drivers
     for qual, file in DRIVERS:
         d = ctx.fn(qual, file=file)
